@@ -60,6 +60,11 @@ class LoopMixin:
         if sp is None:
             fq = frame.func.qual if frame.func is not None else ""
             sp = self.unit.loops.get(fq + "/" + key)
+        if sp is None:
+            # '<beginning of the head text>*': a long head (a comprehension) addressed by its beginning
+            for k, v in self.unit.loops.items():
+                if k.endswith("*") and key.startswith(k[:-1]):
+                    return v
         return sp
 
     def iter_items(self, it):
@@ -346,11 +351,13 @@ class LoopMixin:
                             f"no write to footprint {nm!r}", None)
 
     def check_clauses(self, clauses, env, kind, label, old_heap=None, extra=None):
+        self.debug_env = env  # (development aid, see TXVC_DEBUG_EVAL)
         for i, cl in enumerate(clauses):
             lab, text, prop = named(cl)
             t, side = self.spec(text, env, old_heap=old_heap, extra=extra)
             self.assume_all(side)
             self.oblige(kind, f"{label}.{lab or i}", t, text, prop)
+        self.debug_env = None
 
     def assume_clauses(self, clauses, env, old_heap=None, extra=None):
         self.spec_mode = "assume"
@@ -369,7 +376,7 @@ class LoopMixin:
         idx = sp.index
         loop_entry_heap = self.heap
         extra = {"loop_entry": loop_entry_heap}
-        env0 = self.loop_env(frame, {idx: TV("int", z3.IntVal(0))})
+        env0 = self.loop_env(frame, {idx: TV("int", z3.IntVal(0)), "_it": it})
         self.check_clauses(sp.inv, env0, "INV-INIT", label, extra=extra)
         trace_mark = len(self.trace)
         self.havoc_for_loop(sp, frame, s.body + [ast.Assign(targets=[s.target], value=ast.Constant(None))], env0, label)
@@ -386,7 +393,7 @@ class LoopMixin:
             self.assume(i == ln2)
         else:
             d = self.choose(2, [i < ln2, i == ln2], f"loop:{label}")
-        env = self.loop_env(frame, {idx: TV("int", i)})
+        env = self.loop_env(frame, {idx: TV("int", i), "_it": it})
         self.assume_clauses(sp.inv, env, extra=extra)
         if d == 0 and body_unit:
             # INV-PRES through the CONTRACT of the body's region unit: its requires are CALL
@@ -396,7 +403,7 @@ class LoopMixin:
 
             self.assign(s.target, get(i), frame)
             self.apply_region(REGISTRY[body_unit], frame, s.body, label)
-            env2 = self.loop_env(frame, {idx: TV("int", i + 1)})
+            env2 = self.loop_env(frame, {idx: TV("int", i + 1), "_it": it})
             self.check_clauses(sp.inv, env2, "INV-PRES", label, extra=extra)
             raise PathEnd("loop body done")
         if d == 0:
@@ -410,7 +417,7 @@ class LoopMixin:
             except BreakSig:
                 outcome = "break"
             if outcome == "next":
-                env2 = self.loop_env(frame, {idx: TV("int", i + 1)})
+                env2 = self.loop_env(frame, {idx: TV("int", i + 1), "_it": it})
                 self.check_clauses(sp.inv, env2, "INV-PRES", label, extra=extra)
                 self.check_preserved(sp.preserves, head_ver, "INV-PRES", label)
                 self.check_pure(sp, head_heap, label)
@@ -604,7 +611,7 @@ class LoopMixin:
         self.solve(ob)
         self.obligs.append(ob)
         if ob.result == "refuted" and os.environ.get("TXVC_DEBUG_EVAL") and getattr(self, "_last_model", None) is not None \
-                and kind != "CANARY" and not ob.reason:
+                and kind != "CANARY" and (not ob.reason or os.environ.get("TXVC_DEBUG_WEAK")):
             # development aid: values of spec expressions in the counter-model
             env = dict(getattr(self, "debug_env", None) or self.spec_env_default())
             print(f"[debug] {kind}:{label} refuted on path {self.branch_log}")
@@ -871,6 +878,41 @@ class LoopMixin:
                 and isinstance(g.target, ast.Name) and n.elt.id == g.target.id:
             # (x for x in L if c(x)): kept lazy; next(...) takes the first element satisfying c
             return py(("lazygen", n, frame, it), "iter")
+        if kind == "list" and it.k == "py" and type(it.r).__name__ == "ObjDict" and isinstance(n.elt, ast.Name) \
+                and isinstance(g.target, ast.Name) and n.elt.id == g.target.id:
+            # [a for a in obj.__dict__ if c(a)]: the names of the object's own attributes that satisfy the
+            # (pure, A-COMP-PURE) condition, each once, in an unspecified but fixed order.  Skolem functions
+            # keyf : positions -> names (injective) and posf : names -> positions.
+            O = it.r.addr
+            R = self.alloc("list")
+            row = fresh("ocomp_row", z3.ArraySort(core.IntS, Val))
+            rlen = fresh("ocomp_len", core.IntS)
+            self.heap = self.heap.store("llen", (R,), rlen, bump=False)
+            self.heap = self.heap.with_array("lelem", z3.Store(self.heap.cur["lelem"], R, row), bump=False)
+            keyf = z3.Function(core.fresh_name("ocomp_key"), core.IntS, core.StrS)
+            posf = z3.Function(core.fresh_name("ocomp_pos"), core.StrS, core.IntS)
+            hasrow = fresh("ocomp_has", z3.ArraySort(core.StrS, core.BoolS))
+            self.assume(hasrow == z3.Select(self.heap.cur["has"], O))
+            q = fresh("oq", core.IntS)
+            kq = fresh("ok", core.StrS)
+
+            def cond_at(name_term):
+                (outs, side) = self._pure_on(frame, g.target, TV("str", name_term), list(g.ifs))
+                c = z3.And(*[self.truthy(x) for x in outs]) if outs else z3.BoolVal(True)
+                return c, side
+
+            c1, s1 = cond_at(keyf(q))
+            self.assume(rlen >= 0)
+            self.assume(z3.ForAll([q], z3.Implies(z3.And(0 <= q, q < rlen), z3.And(
+                *s1, z3.Select(hasrow, keyf(q)), c1, z3.Select(row, q) == core.mk_str(keyf(q)), posf(keyf(q)) == q)),
+                patterns=[keyf(q), z3.Select(row, q)]))
+            c2, s2 = cond_at(kq)
+            self.assume(z3.ForAll([kq], z3.Implies(z3.And(z3.Select(hasrow, kq), *s2, c2), z3.And(
+                0 <= posf(kq), posf(kq) < rlen, keyf(posf(kq)) == kq, z3.Select(row, posf(kq)) == core.mk_str(kq))),
+                patterns=[posf(kq), z3.Select(hasrow, kq)]))
+            tv = TV("val", mk_ref(R), "list")
+            self.elem_hints[str(tv.r)] = "str"
+            return tv
         if kind == "list" and is_items:
             # [e(k, v) for k, v in D.items() if c(k, v)]: a fresh list with one element per selected
             # key.  Skolem functions keyf : positions -> keys (injective) and posf : keys -> positions.
